@@ -278,7 +278,14 @@ def item_text(it, rng, style=None):
     if k == "dir":
         args = ", ".join(expr_text(a, rng, style=style) for a in it["args"])
         if it["name"] == "implicit":
-            return "w%d: %s" % (rng.randrange(10 ** 6), args) if not style.get("no_implicit_label") else args
+            # an implicit word list must start with a plain octal number: a line starting with
+            # '-', '+', '^' or '(' continues the previous expression, and a dotted symbol is read as an
+            # instruction name followed by junk
+            first = it["args"][0]
+            if first[0] == "lit" and first[1] >= 0:
+                rest = ", ".join(expr_text(a, rng, style=style) for a in it["args"][1:])
+                return "%o" % first[1] + (", " + rest if rest else "")
+            return ".word " + args
         return it["name"] + (" " + args if args else "")
     if k == "str":
         q = rng.choice("\"'/")
